@@ -24,7 +24,7 @@ WATCHDOG = {"quick": 600, "thorough": 3000}
 WTESTS = {"groups": ['flatten'], "tests": ['tests/decay']}
 REQUIRED = {"sub-decay-without-daughters": 10, 
     "subdecays>=4": 20, "mult3-of-decaying": 20, "reoccur-two-depths": 20, "mother-last": 20, "stable-nonempty": 20,
-    "stable-as-set": 5, "stable-as-tuple": 5, "visible_bf": 20, "same-shape-other-branching-fractions": 20, "returned-chain-edited-then-original-compared": 50, "all-sub-decays-with-bf-exactly-1": 20, "a-sub-decay-with-bf-exactly-0": 20,
+    "stable-as-set": 5, "stable-as-tuple": 5, "visible_bf": 20, "same-shape-other-branching-fractions": 20, "returned-chain-edited-then-original-compared": 50, "flatten-without-stable-set-after-one-with": 50, "all-sub-decays-with-bf-exactly-1": 20, "a-sub-decay-with-bf-exactly-0": 20,
     "C12.flatten.leaves_and_product": 500, "C12.flatten.original_unchanged": 500,
 }
 EXHAUSTIVE_NOTE = "W-enum is exhaustive over increasing-tree shapes with <= N decaying particles (N=5 quick, 6 thorough), child multiplicities 1..3, all stable subsets"
@@ -92,6 +92,23 @@ def check_case(ctx, case, workload="enum"):
         contracts.drain()
         if ok2 and fl2.to_dict() != first:
             ctx.violate("flatten:second-result-depends-on-edits-of-the-first", f"{fl2.to_dict()!r} vs first {first!r}", wit)
+    if S and ctx.rng.random() < 0.3:
+        # the next question to the same chain, without a stable set: everything is substituted, whatever was asked before
+        ctx.hit("flatten-without-stable-set-after-one-with")
+        leaves0, bf0 = chains.ref_leaves(types, m, set())
+        for which in ((3, 4) if ctx.rng.random() < 0.5 else (4, 3)):     # the two follow-up questions in either order
+            if which == 3:
+                ok3, fl3 = ctx.guard("flatten:after-stable", wit, dc.flatten)
+                contracts.drain()
+                if ok3:
+                    t3 = fl3.decays[m]
+                    if Counter({k: v for k, v in dict(t3.daughters).items() if v}) != leaves0 or not math.isclose(t3.bf, bf0, rel_tol=1e-9, abs_tol=1e-290):
+                        ctx.violate("flatten:depends-on-an-earlier-call-with-a-stable-set", f"flatten() after flatten(stable_particles={S}) gave {dict(t3.daughters)} bf={t3.bf}, expected {dict(leaves0)} bf={bf0}", wit)
+            else:
+                ok4, vb4 = ctx.guard("visible_bf:after-stable", wit, lambda: dc.visible_bf)
+                contracts.drain()
+                if ok4 and not math.isclose(vb4, bf0, rel_tol=1e-9, abs_tol=1e-290):
+                    ctx.violate("visible_bf:depends-on-an-earlier-flatten-with-a-stable-set", f"visible_bf {vb4} after flatten(stable_particles={S}), product of the whole tree {bf0}", wit)
     # classes
     occ = chains.occurrences(types, m)
     if len(types) - 1 >= 4 and not S:
